@@ -319,7 +319,123 @@ def _movable(e):
         return all(_movable(x) for x in e.elts)
     if isinstance(e, ast.Call) and isinstance(e.func, ast.Name) and e.func.id in PURE_CALLS and not e.keywords:
         return all(_movable(a) for a in e.args)
+    # re-arrangements of an array: pure functions of their operand (a view or a fresh array with the same entries)
+    if isinstance(e, ast.Call) and isinstance(e.func, ast.Attribute) and e.func.attr in ('transpose', 'reshape', 'conj') and \
+            not e.keywords and _movable(e.func.value):
+        return all(_movable(a) for a in e.args)
+    if isinstance(e, ast.Call) and norm(e.func) in ('np.transpose', 'np.reshape', 'np.conj') and not e.keywords:
+        return all(_movable(a) for a in e.args)
+    # an array written out as a literal of constants: every evaluation gives an equal fresh array
+    if isinstance(e, ast.Call) and norm(e.func) == 'np.array' and len(e.args) == 1 and _const_literal(e.args[0]) and \
+            all(k.arg == 'dtype' and _movable(k.value) for k in e.keywords):
+        return True
     return False
+
+
+def _const_literal(e):
+    if isinstance(e, ast.Constant):
+        return isinstance(e.value, (int, float, complex))
+    if isinstance(e, (ast.List, ast.Tuple)):
+        return all(_const_literal(x) for x in e.elts)
+    return False
+
+
+def coalesce_copies(fnode):
+    """tmp = E ; ... ; X = tmp   (tmp generated by the helper inliner, bound once, read only by that copy; X not referenced
+    in between)   ->   X = E ; ...        (the copy disappears)"""
+    fn = copy.deepcopy(fnode)
+    for n in list(ast.walk(fn)):
+        for f in ('body', 'orelse', 'finalbody'):
+            blk = getattr(n, f, None)
+            if not (isinstance(blk, list) and blk and isinstance(blk[0], ast.stmt)):
+                continue
+            i = 0
+            while i < len(blk):
+                s_ = blk[i]
+                if isinstance(s_, ast.Assign) and len(s_.targets) == 1 and isinstance(s_.targets[0], ast.Name) and \
+                        isinstance(s_.value, ast.Name) and '__h' in s_.value.id:
+                    tmp, X = s_.value.id, s_.targets[0].id
+                    defs = [j for j in range(i) if isinstance(blk[j], ast.Assign) and len(blk[j].targets) == 1 and
+                            isinstance(blk[j].targets[0], ast.Name) and blk[j].targets[0].id == tmp]
+                    total = sum(1 for x in ast.walk(fn) if isinstance(x, ast.Name) and x.id == tmp)
+                    tmp_stores = sum(1 for x in ast.walk(fn) if isinstance(x, ast.Name) and x.id == tmp and
+                                     isinstance(x.ctx, ast.Store))
+                    first_use_of_X = min((x.lineno, x.col_offset) for x in ast.walk(fn) if isinstance(x, ast.Name) and x.id == X)
+                    x_stores = sum(1 for x in ast.walk(fn) if isinstance(x, ast.Name) and x.id == X and isinstance(x.ctx, ast.Store))
+                    if tmp_stores == 1 and x_stores == 1 and blk is fn.body and \
+                            not any(isinstance(x, ast.Name) and x.id == X for b in blk[:i] for x in ast.walk(b)):
+                        # X is born by this copy of a helper local that is bound once: the helper local takes X's name
+                        class _R(ast.NodeTransformer):
+                            def visit_Name(self, node):
+                                if node.id == tmp:
+                                    node.id = X
+                                return node
+                        del blk[i]
+                        _R().visit(fn)
+                        continue
+                    if len(defs) == 1 and total == 2:
+                        j = defs[0]
+                        between = blk[j + 1:i]
+                        if not any(isinstance(x, ast.Name) and x.id == X for b in between for x in ast.walk(b)) and \
+                                not any(isinstance(x, ast.Name) and x.id == X for x in ast.walk(blk[j].value)) or X == tmp:
+                            blk[j].targets[0].id = X
+                            del blk[i]
+                            continue
+                i += 1
+    ast.fix_missing_locations(fn)
+    return fn
+
+
+def negative_indices(fnode):
+    """X[len(X) - k]  ->  X[-k]   (k a positive integer constant; same element of a list / array)"""
+    fn = copy.deepcopy(fnode)
+    for n in ast.walk(fn):
+        if isinstance(n, ast.Subscript) and isinstance(n.slice, ast.BinOp) and isinstance(n.slice.op, ast.Sub) and \
+                isinstance(n.slice.right, ast.Constant) and isinstance(n.slice.right.value, int) and n.slice.right.value >= 1 and \
+                isinstance(n.slice.left, ast.Call) and norm(n.slice.left.func) == 'len' and len(n.slice.left.args) == 1 and \
+                norm(n.slice.left.args[0]) == norm(n.value):
+            n.slice = ast.copy_location(ast.UnaryOp(op=ast.USub(), operand=ast.Constant(value=n.slice.right.value)), n.slice)
+    ast.fix_missing_locations(fn)
+    return fn
+
+
+def forward_site_stores(known):
+    """X.A[k] = T (T a local the pinned version does not have): later reads of T in the same block are reads of X.A[k],
+    until X.A[..], T or a name inside k is assigned again"""
+    known = set(known)
+
+    def run(fnode):
+        fn = copy.deepcopy(fnode)
+        for n in list(ast.walk(fn)):
+            for f in ('body', 'orelse', 'finalbody'):
+                blk = getattr(n, f, None)
+                if not (isinstance(blk, list) and blk and isinstance(blk[0], ast.stmt)):
+                    continue
+                for i, s_ in enumerate(blk):
+                    if not (isinstance(s_, ast.Assign) and len(s_.targets) == 1 and isinstance(s_.value, ast.Name) and
+                            s_.value.id not in known and isinstance(s_.targets[0], ast.Subscript) and
+                            isinstance(s_.targets[0].value, ast.Attribute) and s_.targets[0].value.attr == 'A'):
+                        continue
+                    T = s_.value.id
+                    slot = s_.targets[0]
+                    owner = norm(slot.value)
+                    idx_names = {x.id for x in ast.walk(slot.slice) if isinstance(x, ast.Name)}
+                    load = copy.deepcopy(slot)
+                    load.ctx = ast.Load()
+                    for j in range(i + 1, len(blk)):
+                        r = blk[j]
+                        stop = False
+                        for x in ast.walk(r):
+                            if isinstance(x, ast.Name) and isinstance(x.ctx, ast.Store) and (x.id == T or x.id in idx_names):
+                                stop = True
+                            if isinstance(x, ast.Subscript) and isinstance(x.ctx, ast.Store) and norm(x.value) == owner:
+                                stop = True
+                        blk[j] = _SubstName(T, load).visit(r)
+                        if stop:
+                            break
+        ast.fix_missing_locations(fn)
+        return fn
+    return run
 
 
 def split_tuple_assigns(fnode, keep=frozenset()):
@@ -366,6 +482,10 @@ def inline_unknown_temps(known, keep=frozenset()):
 
     def run(fnode):
         fn = copy.deepcopy(fnode)
+        present = {x.id for x in ast.walk(fn) if isinstance(x, ast.Name)} | {a.arg for a in ast.walk(fn) if isinstance(a, ast.arg)}
+        # a consistently renamed local leaves its old name missing; when no name of the pinned version is missing, every
+        # unknown name is a genuinely new temporary and the shape of its definition does not matter
+        nothing_renamed = not (known - present - {'_'})
         for _ in range(4):
             stores = _store_counts(fn)
             changed = False
@@ -379,32 +499,27 @@ def inline_unknown_temps(known, keep=frozenset()):
                         s = blk[i]
                         if isinstance(s, ast.Assign) and len(s.targets) == 1 and isinstance(s.targets[0], ast.Name) and \
                                 s.targets[0].id not in known and stores.get(s.targets[0].id) == 1 and _movable(s.value) and \
-                                shape_key(s) not in keep and not _mutated_through(fn, s.targets[0].id):
+                                (nothing_renamed or shape_key(s) not in keep) and not _mutated_through(fn, s.targets[0].id):
                             t = s.targets[0].id
                             rest = blk[i + 1:]
                             total = sum(1 for x in ast.walk(fn) if isinstance(x, ast.Name) and x.id == t)
                             inrest = sum(1 for r in rest for x in ast.walk(r) if isinstance(x, ast.Name) and x.id == t)
                             operands = {x.id for x in ast.walk(s.value) if isinstance(x, ast.Name)}
-                            touched = set()
-                            for r in rest:
-                                for x in ast.walk(r):
-                                    if isinstance(x, ast.Name) and isinstance(x.ctx, (ast.Store, ast.Del)):
-                                        touched.add(x.id)
-                                    elif isinstance(x, (ast.Subscript, ast.Attribute)) and isinstance(x.ctx, (ast.Store, ast.Del)):
-                                        b = x
-                                        while isinstance(b, (ast.Subscript, ast.Attribute)):
-                                            b = b.value
-                                        if isinstance(b, ast.Name):
-                                            touched.add(b.id)
-                                    elif isinstance(x, ast.Call) and isinstance(x.func, ast.Attribute) and \
-                                            x.func.attr in ('append', 'extend', 'insert', 'pop', 'remove', 'sort', 'reverse',
-                                                            'update', 'clear', 'add', 'fill'):
-                                        b = x.func.value
-                                        while isinstance(b, (ast.Subscript, ast.Attribute)):
-                                            b = b.value
-                                        if isinstance(b, ast.Name):
-                                            touched.add(b.id)
-                            if total - 1 == inrest and not (operands & touched):
+                            use_idx = [k for k, r in enumerate(rest) if any(isinstance(x, ast.Name) and x.id == t
+                                                                            for x in ast.walk(r))]
+                            upto = use_idx[-1] if use_idx else 0
+                            # stores that matter are those executed before the last use: all statements before the one
+                            # that holds the last use (a store in that statement itself happens after its operands are read,
+                            # unless it is a compound statement)
+                            scan = rest[:upto] + ([rest[upto]] if use_idx and isinstance(rest[upto], (ast.For, ast.While, ast.If,
+                                                                                                       ast.With, ast.Try)) else [])
+                            conflict = _conflicts(s.value, scan)
+                            # the next value of a counter (`N = D + e ... D = N`) is an idiom of its own, left to the
+                            # rules that know it (sa/blocknorm.py N5)
+                            copied_back = any(isinstance(r, ast.Assign) and len(r.targets) == 1 and
+                                              isinstance(r.targets[0], ast.Name) and r.targets[0].id in operands and
+                                              isinstance(r.value, ast.Name) and r.value.id == t for r in rest)
+                            if total - 1 == inrest and not conflict and not copied_back:
                                 blk[i + 1:] = [_SubstName(t, s.value).visit(r) for r in rest]
                                 del blk[i]
                                 changed = True
@@ -465,12 +580,20 @@ def index_loops(fnode, keep=frozenset()):
             kname = tgt.elts[0].id
             it, tgt = it.args[0], tgt.elts[1]
         seqs, names = None, None
+        rev = False
+        if isinstance(it, ast.Call) and norm(it.func) == 'reversed' and len(it.args) == 1 and kname is None:
+            rev, it = True, it.args[0]                  # reversed(zip(..)) is not valid Python, reversed(S) is
         if isinstance(it, ast.Call) and norm(it.func) == 'zip' and not it.keywords and isinstance(tgt, ast.Tuple) and \
                 len(tgt.elts) == len(it.args) and all(isinstance(x, ast.Name) for x in tgt.elts):
             seqs, names = list(it.args), [x.id for x in tgt.elts]
+            if all(isinstance(x, ast.Call) and norm(x.func) == 'reversed' and len(x.args) == 1 for x in seqs) and kname is None:
+                rev, seqs = True, [x.args[0] for x in seqs]     # zip(reversed(a), reversed(b)): equal lengths asserted by the .A family rule below
         elif isinstance(tgt, ast.Name):
             seqs, names = [it], [tgt.id]
         if seqs is None:
+            continue
+        if rev and not all(norm(seq_info(x)[0]).endswith('.A') and seq_info(x)[1] is None and seq_info(x)[2] is None
+                           for x in seqs if seq_info(x) is not None):
             continue
         infos = [seq_info(x) for x in seqs]
         if any(i is None for i in infos):
@@ -513,19 +636,27 @@ def index_loops(fnode, keep=frozenset()):
             loop.body = [_SubstName(nm, repl).visit(b) for b in loop.body]
         loop.target = ast.copy_location(ast.Name(id=kname, ctx=ast.Store()), loop.target)
         args = [end] if norm(lo) == '0' else [copy.deepcopy(lo), end]
-        loop.iter = ast.copy_location(ast.Call(func=ast.Name(id='range', ctx=ast.Load()), args=args, keywords=[]), loop.iter)
+        rng = ast.Call(func=ast.Name(id='range', ctx=ast.Load()), args=args, keywords=[])
+        if rev:
+            rng = ast.Call(func=ast.Name(id='reversed', ctx=ast.Load()), args=[rng], keywords=[])
+        loop.iter = ast.copy_location(rng, loop.iter)
     ast.fix_missing_locations(fn)
     return fn
 
 
 def normalise_function(fnode, known_locals, known_spellings=()):
     keep = frozenset(known_spellings)
-    fn = reduce_to_loop(fnode)
+    fn = negative_indices(fnode)
+    fn = reduce_to_loop(fn)
     fn = update_dictcomp_to_loop(fn)
+    fn = fuse_collect_loops(fn)
     fn = split_tuple_assigns(fn, keep)
+    fn = coalesce_copies(fn)
     fn = aug_from_binop(fn, keep)
     fn = index_loops(fn, keep)
+    fn = forward_site_stores(known_locals)(fn)
     fn = inline_unknown_temps(known_locals, keep)(fn)
+    fn = negative_indices(fn)
     return fn
 
 
@@ -701,3 +832,139 @@ def update_dictcomp_to_loop(fnode):
                     blk[i] = ast.copy_location(ast.For(target=g.target, iter=g.iter, body=body, orelse=[]), s_)
     ast.fix_missing_locations(fn)
     return fn
+
+
+def fuse_collect_loops(fnode):
+    """X = [] ; for v in S: B1 ; X.append((a, b, ..)) ; ... ; for (p, q, ..) in X: B2
+         ->  for v in S: B1 ; p, q, .. = a, b, .. ; B2
+    when B1 only assigns plain local names (no stores into objects, no calls with side effects other than the append),
+    X is used nowhere else, nothing between the two loops, and B2 assigns none of the names S / B1 read"""
+    fn = copy.deepcopy(fnode)
+    for n in list(ast.walk(fn)):
+        for f in ('body', 'orelse', 'finalbody'):
+            blk = getattr(n, f, None)
+            if not (isinstance(blk, list) and blk and isinstance(blk[0], ast.stmt)):
+                continue
+            i = 0
+            while i + 2 < len(blk):
+                a, l1, l2 = blk[i], blk[i + 1], blk[i + 2]
+                if isinstance(a, ast.Assign) and len(a.targets) == 1 and isinstance(a.targets[0], ast.Name) and \
+                        isinstance(a.value, ast.List) and not a.value.elts and isinstance(l1, ast.For) and \
+                        isinstance(l2, ast.For) and not l1.orelse and not l2.orelse and \
+                        isinstance(l2.iter, ast.Name) and l2.iter.id == a.targets[0].id and l1.body:
+                    X = a.targets[0].id
+                    last = l1.body[-1]
+                    uses = sum(1 for x in ast.walk(fn) if isinstance(x, ast.Name) and x.id == X)
+                    if isinstance(last, ast.Expr) and isinstance(last.value, ast.Call) and norm(last.value.func) == f'{X}.append' \
+                            and len(last.value.args) == 1 and uses == 3:
+                        item = last.value.args[0]
+                        b1 = l1.body[:-1]
+                        pure = all(isinstance(s_, ast.Assign) and all(isinstance(t, (ast.Name, ast.Tuple)) for t in s_.targets)
+                                   for s_ in b1)
+                        reads1 = {x.id for s_ in b1 + [l1.iter] for x in ast.walk(s_) if isinstance(x, ast.Name)} | \
+                            {x.id for x in ast.walk(item) if isinstance(x, ast.Name)}
+                        writes2 = {x.id for s_ in l2.body for x in ast.walk(s_) if isinstance(x, ast.Name) and
+                                   isinstance(x.ctx, ast.Store)}
+                        tnames = {x.id for x in ast.walk(l2.target) if isinstance(x, ast.Name)}
+                        if pure and not (writes2 & (reads1 - tnames)):
+                            bind = []
+                            if norm(l2.target) != norm(item) and norm(l2.target) != f'({norm(item)})':
+                                bind = [ast.copy_location(ast.Assign(targets=[l2.target], value=item), l2)]
+                            l1.body = b1 + bind + l2.body
+                            del blk[i + 2]
+                            del blk[i]
+                            continue
+                i += 1
+    ast.fix_missing_locations(fn)
+    return fn
+
+
+def _path(e):
+    """text of an access path made of names, attributes and subscripts; the path without its last subscript"""
+    return norm(e)
+
+
+def _reads(expr):
+    """paths read by a movable expression: (path text, kind) with kind 'len' (only the length of the object matters),
+    'elem' (an element / slice of the object), 'obj' (the object as a whole)"""
+    out = []
+
+    def rec(e, ctx='obj'):
+        if isinstance(e, ast.Call) and isinstance(e.func, ast.Name) and e.func.id == 'len' and len(e.args) == 1:
+            out.append((norm(e.args[0]), 'len'))
+            inner = e.args[0]
+            while isinstance(inner, (ast.Subscript, ast.Attribute)):
+                if isinstance(inner, ast.Subscript):
+                    rec(inner.slice, 'obj')
+                    out.append((norm(inner.value), 'elem'))
+                inner = inner.value
+            return
+        if isinstance(e, ast.Subscript):
+            out.append((norm(e.value), 'elem'))
+            rec(e.slice, 'obj')
+            inner = e.value
+            while isinstance(inner, (ast.Subscript, ast.Attribute)):
+                if isinstance(inner, ast.Subscript):
+                    out.append((norm(inner.value), 'elem'))
+                    rec(inner.slice, 'obj')
+                inner = inner.value
+            return
+        if isinstance(e, ast.Attribute):
+            if e.attr in ('shape', 'ndim', 'size', 'dtype'):
+                out.append((norm(e.value), 'obj'))
+                rec(e.value, 'obj') if isinstance(e.value, ast.Subscript) else None
+            else:
+                out.append((norm(e), 'obj'))
+                if isinstance(e.value, ast.Subscript):
+                    rec(e.value, 'obj')
+            return
+        if isinstance(e, ast.Name):
+            out.append((e.id, 'obj'))
+            return
+        for c in ast.iter_child_nodes(e):
+            if isinstance(c, (ast.expr, ast.Slice)):
+                rec(c, ctx)
+    rec(expr)
+    return out
+
+
+def _conflicts(expr, stmts):
+    """may one of the statements change the value of the movable expression?"""
+    reads = _reads(expr)
+    names = {x.id for x in ast.walk(expr) if isinstance(x, ast.Name)}
+    for r in stmts:
+        for x in ast.walk(r):
+            if isinstance(x, ast.Name) and isinstance(x.ctx, (ast.Store, ast.Del)) and x.id in names:
+                return True
+            if isinstance(x, ast.Attribute) and isinstance(x.ctx, (ast.Store, ast.Del)):
+                p = norm(x)
+                if any(rp == p or rp.startswith(p + '.') or rp.startswith(p + '[') for rp, _ in reads):
+                    return True
+            if isinstance(x, ast.Subscript) and isinstance(x.ctx, (ast.Store, ast.Del)):
+                p = norm(x.value)
+                for rp, kind in reads:
+                    if rp == p and kind in ('elem', 'obj'):
+                        return True
+                    if rp.startswith(p + '[') or rp.startswith(p + '.'):
+                        return True
+            if isinstance(x, ast.AugAssign):
+                tgt = x.target
+                if isinstance(tgt, ast.Name) and tgt.id in names:
+                    return True
+            if isinstance(x, ast.Call) and isinstance(x.func, ast.Attribute) and \
+                    x.func.attr in ('append', 'extend', 'insert', 'pop', 'remove', 'sort', 'reverse', 'update', 'clear', 'add',
+                                    'fill', 'setdefault', 'resize'):
+                p = norm(x.func.value)
+                if any(rp == p or rp.startswith(p + '[') or rp.startswith(p + '.') for rp, _ in reads):
+                    return True
+            if isinstance(x, ast.Call) and not (isinstance(x.func, ast.Attribute) or
+                                                 (isinstance(x.func, ast.Name) and x.func.id in PURE_CALLS)):
+                # a call that receives one of the objects may change it (methods of the object itself are handled above
+                # when they are known mutators; other method calls are assumed to leave lengths / elements of OTHER objects alone)
+                argn = {n_.id for a in x.args for n_ in ast.walk(a) if isinstance(n_, ast.Name)}
+                if argn & names and any(kind != 'len' for _, kind in reads):
+                    # element values may change through the callee only if the object itself is handed over
+                    whole = {a.id for a in x.args if isinstance(a, ast.Name)}
+                    if whole & names:
+                        return True
+    return False
